@@ -9,6 +9,7 @@ import (
 	"io"
 	"runtime"
 	"sync"
+	"time"
 
 	unixfsnode "github.com/ipfs/go-unixfsnode"
 	"github.com/ipfs/go-unixfsnode/hamt"
@@ -38,6 +39,25 @@ type ConcCase struct {
 // runConcBulk: a directory of cc.N entries (plain through the auto-selecting builder when Fanout is 0, else sharded)
 // shared by G goroutines; each looks up every member and as many non-members, in its own rotation, on a node that
 // is fresh (cold) for every repetition.  Compared here, reported as one summarised line per repetition.
+// waitAll waits for the goroutines of one round; readers that never come back are a "hang" outcome of the
+// round (the goroutines are abandoned), not a stuck check
+func waitAll(wg *sync.WaitGroup, tr *Tr) bool {
+	done := make(chan struct{})
+	go func() { wg.Wait(); close(done) }()
+	d := 20 * time.Second
+	if hangSeen {
+		d = 2 * time.Second
+	}
+	select {
+	case <-done:
+		return true
+	case <-time.After(d):
+		hangSeen = true
+		tr.Emit(M{"ev": "crash", "e": "panic", "why": "concurrent readers never returned"})
+		return false
+	}
+}
+
 func runConcBulk(cc *ConcCase, tr *Tr) error {
 	n := cc.N
 	u := make([]string, 2*n)
@@ -111,7 +131,9 @@ func runConcBulk(cc *ConcCase, tr *Tr) error {
 			}(g)
 		}
 		close(start)
-		wg.Wait()
+		if !waitAll(&wg, tr) {
+			continue
+		}
 		sum := func(xs []int) (t int) {
 			for _, x := range xs {
 				t += x
@@ -221,7 +243,9 @@ func runConcDir(cc *ConcCase, tr *Tr) error {
 			}(g, op, bufs[g])
 		}
 		close(start)
-		wg.Wait()
+		if !waitAll(&wg, tr) {
+			continue
+		}
 		for _, eb := range bufs {
 			for _, e := range eb.evs {
 				tr.Emit(e)
@@ -337,7 +361,9 @@ func runConcFile(cc *ConcCase, tr *Tr) error {
 			}(g, op, bufs[g])
 		}
 		close(start)
-		wg.Wait()
+		if !waitAll(&wg, tr) {
+			continue
+		}
 		for _, eb := range bufs {
 			for _, e := range eb.evs {
 				tr.Emit(e)
@@ -491,6 +517,19 @@ func init() {
 			cc := &ConcCase{Fam: "conc", ID: fmt.Sprintf("conc-dir-mixed-%s", warm), What: "dir", Fanout: 8, Warm: warm, Ops: mixed, Reps: *reps * 3, Yield: true}
 			if err := runConcDir(cc, tr); err != nil {
 				return err
+			}
+		}
+		// every goroutine does the same thing at once (eight lengths, eight iterations, eight lookups of one name)
+		for _, k := range kinds {
+			if *what == "file" || *what == "missz" {
+				break
+			}
+			for _, warm := range []string{"cold", "halfwarm"} {
+				same := []string{k, k, k, k, k, k, k, k}
+				cc := &ConcCase{Fam: "conc", ID: fmt.Sprintf("conc-dir-same-%s-%s", k, warm), What: "dir", Fanout: 8, Warm: warm, Ops: same, Reps: *reps, Yield: true}
+				if err := runConcDir(cc, tr); err != nil {
+					return err
+				}
 			}
 		}
 		// a child shard is unavailable and several goroutines reach it at once: every one of them must get the load error
